@@ -54,6 +54,10 @@ func (p *Program) CondOf(v ssa.Value) Cond {
 			if constLike(c.X) && !constLike(c.Y) {
 				c = c.Flipped()
 			}
+			// a loop index is always read on the left ("len(xs) > i" = "i < len(xs)")
+			if c.Y == "idx(range)" && c.X != "idx(range)" {
+				c = c.Flipped()
+			}
 			return c
 		}
 	}
